@@ -215,4 +215,4 @@ def run_shard(ctx):
     ctx.drive("recommend", gen.run_case(names=NAMES, laws=LAWS, poo_ok_only=True, gpo_ok_only=True,
                                         n_range=(100, 300) if quick else (100, 1500), script_prob=0.25,
                                         full_T_prob=0.5, T_min=3),
-              check_case, ctx.budget(2400, 40000))
+              check_case, ctx.budget(12000, 80000))
